@@ -1,1 +1,712 @@
-fn main(){}
+//! Case runner: reads one JSON case per line (file given as argv[1], or stdin), runs the real
+//! handlebars crate in-process on it and prints one JSON result per line (same shapes as the Lean
+//! model driver prints).  `--from N` skips the first N cases (used after a crash).
+use handlebars::template::{
+    BlockParam, DecoratorTemplate, HelperTemplate, Parameter, Template, TemplateElement,
+};
+use handlebars::{
+    Context, Decorator, Handlebars, Helper, HelperDef, HelperResult, Output, Path, PathSeg,
+    RenderContext, RenderError, RenderErrorReason, ScopedJson, TemplateError, TemplateErrorReason,
+};
+use serde_json::{json, Map, Value};
+use std::io::{BufRead, Write};
+use std::panic::{catch_unwind, AssertUnwindSafe};
+
+mod macro_helpers;
+mod pairs;
+
+// ---------------------------------------------------------------- protocol data
+
+fn decode_data(v: &Value) -> Value {
+    match v {
+        Value::Array(a) => Value::Array(a.iter().map(decode_data).collect()),
+        Value::Object(o) => {
+            if o.len() == 1 {
+                let (k, val) = o.iter().next().unwrap();
+                if let Value::String(s) = val {
+                    match k.as_str() {
+                        "#u" => return Value::Number(s.parse::<u64>().unwrap().into()),
+                        "#i" => return Value::Number(s.parse::<i64>().unwrap().into()),
+                        "#f" => {
+                            let bits = u64::from_str_radix(s, 16).unwrap();
+                            return Value::Number(
+                                serde_json::Number::from_f64(f64::from_bits(bits)).unwrap(),
+                            );
+                        }
+                        _ => {}
+                    }
+                }
+            }
+            Value::Object(o.iter().map(|(k, v)| (k.clone(), decode_data(v))).collect())
+        }
+        other => other.clone(),
+    }
+}
+
+fn encode_data(v: &Value) -> Value {
+    match v {
+        Value::Number(n) => {
+            if let Some(u) = n.as_u64() {
+                json!({"#u": u.to_string()})
+            } else if let Some(i) = n.as_i64() {
+                json!({"#i": i.to_string()})
+            } else {
+                json!({"#f": format!("{:016x}", n.as_f64().unwrap().to_bits())})
+            }
+        }
+        Value::Array(a) => Value::Array(a.iter().map(encode_data).collect()),
+        Value::Object(o) => Value::Object(o.iter().map(|(k, v)| (k.clone(), encode_data(v))).collect()),
+        other => other.clone(),
+    }
+}
+
+// ---------------------------------------------------------------- AST dump
+
+fn dump_path(p: &Path) -> Value {
+    match p {
+        Path::Relative((segs, raw)) => {
+            let segs: Vec<Value> = segs
+                .iter()
+                .map(|s| match s {
+                    PathSeg::Named(n) => json!({"n": n}),
+                    other => {
+                        let d = format!("{:?}", other);
+                        match d.as_str() {
+                            "Ruled(path_root)" => json!("root"),
+                            "Ruled(path_local)" => json!("loc"),
+                            "Ruled(path_up)" => json!("up"),
+                            _ => json!(d),
+                        }
+                    }
+                })
+                .collect();
+            json!({"k":"rel","segs":segs,"raw":raw})
+        }
+        Path::Local((level, name, raw)) => json!({"k":"local","level":level,"name":name,"raw":raw}),
+    }
+}
+
+fn dump_param(p: &Parameter) -> Value {
+    match p {
+        Parameter::Name(s) => json!({"k":"name","s":s}),
+        Parameter::Path(p) => json!({"k":"path","p":dump_path(p)}),
+        Parameter::Literal(j) => json!({"k":"lit","j":encode_data(j)}),
+        Parameter::Subexpression(s) => match s.as_element() {
+            TemplateElement::Expression(h) => json!({"k":"sub","h":dump_helper(h)}),
+            other => json!({"k":"sub-other","d":format!("{:?}", other)}),
+        },
+        other => json!({"k":"other","d":format!("{:?}", other)}),
+    }
+}
+
+fn dump_hash(h: &std::collections::HashMap<String, Parameter>) -> Value {
+    let mut keys: Vec<&String> = h.keys().collect();
+    keys.sort();
+    Value::Array(keys.into_iter().map(|k| json!([k, dump_param(&h[k])])).collect())
+}
+
+fn dump_bp(b: &Option<BlockParam>) -> Value {
+    match b {
+        None => Value::Null,
+        Some(BlockParam::Single(Parameter::Name(a))) => json!([a]),
+        Some(BlockParam::Pair((Parameter::Name(a), Parameter::Name(b)))) => json!([a, b]),
+        Some(other) => json!(format!("{:?}", other)),
+    }
+}
+
+fn dump_opt_t(t: &Option<Template>) -> Value {
+    match t {
+        Some(t) => dump_tmpl(t),
+        None => Value::Null,
+    }
+}
+
+fn dump_helper(h: &HelperTemplate) -> Value {
+    let dbg = format!("{:?}", h);
+    let ibw = dbg.ends_with("indent_before_write: true }");
+    json!({"name":dump_param(&h.name),"params":h.params.iter().map(dump_param).collect::<Vec<_>>(),
+           "hash":dump_hash(&h.hash),"bp":dump_bp(&h.block_param),"template":dump_opt_t(&h.template),
+           "inverse":dump_opt_t(&h.inverse),"block":h.block,"chain":h.chain,"ibw":ibw})
+}
+
+fn dump_deco(d: &DecoratorTemplate) -> Value {
+    let dbg = format!("{:?}", d);
+    let ibw = dbg.ends_with("indent_before_write: true }");
+    json!({"name":dump_param(&d.name),"params":d.params.iter().map(dump_param).collect::<Vec<_>>(),
+           "hash":dump_hash(&d.hash),"template":dump_opt_t(&d.template),"indent":d.indent,"ibw":ibw})
+}
+
+fn dump_elem(e: &TemplateElement) -> Value {
+    match e {
+        TemplateElement::RawString(s) => json!({"k":"raw","s":s}),
+        TemplateElement::HtmlExpression(h) => json!({"k":"html","h":dump_helper(h)}),
+        TemplateElement::Expression(h) => json!({"k":"expr","h":dump_helper(h)}),
+        TemplateElement::HelperBlock(h) => json!({"k":"block","h":dump_helper(h)}),
+        TemplateElement::DecoratorExpression(d) => json!({"k":"decoExpr","d":dump_deco(d)}),
+        TemplateElement::DecoratorBlock(d) => json!({"k":"decoBlock","d":dump_deco(d)}),
+        TemplateElement::PartialExpression(d) => json!({"k":"partialExpr","d":dump_deco(d)}),
+        TemplateElement::PartialBlock(d) => json!({"k":"partialBlock","d":dump_deco(d)}),
+        TemplateElement::Comment(s) => json!({"k":"comment","s":s}),
+        other => json!({"k":"other","d":format!("{:?}", other)}),
+    }
+}
+
+fn dump_tmpl(t: &Template) -> Value {
+    json!({"name":t.name,"elements":t.elements.iter().map(dump_elem).collect::<Vec<_>>(),
+           "mapping":t.mapping.iter().map(|m| json!([m.0, m.1])).collect::<Vec<_>>()})
+}
+
+// ---------------------------------------------------------------- errors
+
+fn terr_fields(e: &TemplateError) -> Map<String, Value> {
+    let (rn, args): (&str, Vec<Value>) = match e.reason() {
+        TemplateErrorReason::MismatchingClosedHelper(a, b) => ("MismatchingClosedHelper", vec![json!(a), json!(b)]),
+        TemplateErrorReason::MismatchingClosedDecorator(a, b) => ("MismatchingClosedDecorator", vec![json!(a), json!(b)]),
+        TemplateErrorReason::InvalidSyntax(_) => ("InvalidSyntax", vec![]),
+        TemplateErrorReason::InvalidParam(s) => ("InvalidParam", vec![json!(s)]),
+        TemplateErrorReason::NestedSubexpression => ("NestedSubexpression", vec![]),
+        TemplateErrorReason::IoError(_, n) => ("IoError", vec![json!(n)]),
+        _ => ("OtherTemplateError", vec![]),
+    };
+    let mut m = Map::new();
+    m.insert("reason".into(), json!(rn));
+    m.insert("args".into(), Value::Array(args));
+    m.insert("name".into(), json!(e.name()));
+    m.insert("line".into(), json!(e.pos().map(|p| p.0)));
+    m.insert("col".into(), json!(e.pos().map(|p| p.1)));
+    m
+}
+
+fn terr_json(e: &TemplateError) -> Value {
+    let mut m = terr_fields(e);
+    m.insert("r".into(), json!("terr"));
+    Value::Object(m)
+}
+
+fn rerr_json(e: &RenderError, written: &str) -> Value {
+    let (rn, args): (&str, Vec<Value>) = match e.reason() {
+        RenderErrorReason::TemplateNotFound(n) => ("TemplateNotFound", vec![json!(n)]),
+        RenderErrorReason::TemplateError(te) => ("TemplateError", vec![Value::Object(terr_fields(te))]),
+        RenderErrorReason::MissingVariable(p) => ("MissingVariable", vec![json!(p)]),
+        RenderErrorReason::PartialNotFound(n) => ("PartialNotFound", vec![json!(n)]),
+        RenderErrorReason::HelperNotFound(n) => ("HelperNotFound", vec![json!(n)]),
+        RenderErrorReason::ParamNotFoundForIndex(h, i) => ("ParamNotFoundForIndex", vec![json!(h), json!(i)]),
+        RenderErrorReason::ParamNotFoundForName(h, n) => ("ParamNotFoundForName", vec![json!(h), json!(n)]),
+        RenderErrorReason::ParamTypeMismatchForName(h, n, t) => ("ParamTypeMismatchForName", vec![json!(h), json!(n), json!(t)]),
+        RenderErrorReason::HashTypeMismatchForName(h, n, t) => ("HashTypeMismatchForName", vec![json!(h), json!(n), json!(t)]),
+        RenderErrorReason::DecoratorNotFound(n) => ("DecoratorNotFound", vec![json!(n)]),
+        RenderErrorReason::CannotIncludeSelf => ("CannotIncludeSelf", vec![]),
+        RenderErrorReason::InvalidLoggingLevel(l) => ("InvalidLoggingLevel", vec![json!(l)]),
+        RenderErrorReason::InvalidParamType(t) => ("InvalidParamType", vec![json!(t)]),
+        RenderErrorReason::BlockContentRequired => ("BlockContentRequired", vec![]),
+        RenderErrorReason::InvalidJsonPath(p) => ("InvalidJsonPath", vec![json!(p)]),
+        RenderErrorReason::InvalidJsonIndex(s) => ("InvalidJsonIndex", vec![json!(s)]),
+        RenderErrorReason::SerdeError(_) => ("SerdeError", vec![]),
+        RenderErrorReason::IOError(_) => ("IOError", vec![]),
+        RenderErrorReason::Utf8Error(_) => ("Utf8Error", vec![]),
+        RenderErrorReason::NestedError(_) => ("NestedError", vec![]),
+        RenderErrorReason::Unimplemented => ("Unimplemented", vec![]),
+        RenderErrorReason::Other(s) => ("Other", vec![json!(s)]),
+        _ => ("OtherRenderError", vec![]),
+    };
+    json!({"r":"rerr","written":written,"reason":rn,"args":args,"name":e.template_name,
+           "line":e.line_no,"col":e.column_no})
+}
+
+// ---------------------------------------------------------------- harness-defined helpers / decorators
+
+struct Mark {
+    tag: String,
+}
+
+impl HelperDef for Mark {
+    fn call<'reg: 'rc, 'rc>(
+        &self,
+        h: &Helper<'rc>,
+        r: &'reg Handlebars<'reg>,
+        ctx: &'rc Context,
+        rc: &mut RenderContext<'reg, 'rc>,
+        out: &mut dyn Output,
+    ) -> HelperResult {
+        use handlebars::JsonRender;
+        let ps: Vec<String> = h.params().iter().map(|p| p.value().render()).collect();
+        let mut line = format!("[{}:{}:{}", self.tag, h.name(), ps.join(","));
+        if !h.hash().is_empty() {
+            let hs: Vec<String> = h.hash().iter().map(|(k, v)| format!("{}={}", k, v.value().render())).collect();
+            line.push('|');
+            line.push_str(&hs.join(","));
+        }
+        line.push(']');
+        out.write(&line)?;
+        if h.is_block() {
+            use handlebars::Renderable;
+            if let Some(t) = h.template() {
+                t.render(r, ctx, rc, out)?;
+            }
+            if let Some(t) = h.inverse() {
+                out.write(&format!("[^{}]", self.tag))?;
+                t.render(r, ctx, rc, out)?;
+            }
+            out.write(&format!("[/{}]", self.tag))?;
+        }
+        Ok(())
+    }
+}
+
+fn pj_dump(p: &handlebars::PathAndJson<'_>) -> Value {
+    json!({"v": p.value(), "r": p.relative_path(), "m": p.is_value_missing(), "c": p.context_path()})
+}
+
+struct Probe;
+impl HelperDef for Probe {
+    fn call<'reg: 'rc, 'rc>(
+        &self,
+        h: &Helper<'rc>,
+        _: &'reg Handlebars<'reg>,
+        _: &'rc Context,
+        _: &mut RenderContext<'reg, 'rc>,
+        out: &mut dyn Output,
+    ) -> HelperResult {
+        let hash: Map<String, Value> = h.hash().iter().map(|(k, v)| (k.to_string(), pj_dump(v))).collect();
+        let bp: Vec<&str> = if let Some(a) = h.block_param() {
+            vec![a]
+        } else if let Some((a, b)) = h.block_param_pair() {
+            vec![a, b]
+        } else {
+            vec![]
+        };
+        let d = json!({"n": h.name(), "p": h.params().iter().map(pj_dump).collect::<Vec<_>>(), "h": hash,
+                       "b": h.is_block(), "t": h.template().is_some(), "i": h.inverse().is_some(), "bp": bp});
+        out.write(&serde_json::to_string(&d).unwrap())?;
+        Ok(())
+    }
+}
+
+struct EvalP;
+impl HelperDef for EvalP {
+    fn call<'reg: 'rc, 'rc>(
+        &self,
+        h: &Helper<'rc>,
+        _: &'reg Handlebars<'reg>,
+        ctx: &'rc Context,
+        rc: &mut RenderContext<'reg, 'rc>,
+        out: &mut dyn Output,
+    ) -> HelperResult {
+        let p = h.param(0).ok_or(RenderErrorReason::ParamNotFoundForIndex("evalp", 0))?;
+        let raw = p.value().as_str().ok_or(RenderErrorReason::InvalidParamType("String"))?.to_owned();
+        let r = rc.evaluate(ctx, &raw)?;
+        if r.is_missing() {
+            out.write("<missing>")?;
+        } else {
+            out.write(&format!("<{}>", r.render()))?;
+        }
+        Ok(())
+    }
+}
+
+struct RcState;
+impl HelperDef for RcState {
+    fn call<'reg: 'rc, 'rc>(
+        &self,
+        _: &Helper<'rc>,
+        _: &'reg Handlebars<'reg>,
+        _: &'rc Context,
+        rc: &mut RenderContext<'reg, 'rc>,
+        out: &mut dyn Output,
+    ) -> HelperResult {
+        use handlebars::JsonRender;
+        let opt = |o: Option<&String>| o.cloned().unwrap_or_else(|| "-".to_string());
+        // number of blocks: Debug form of the context lists them; count via block() chain is not
+        // public, so use the Debug output of `blocks`
+        let dbg = format!("{:?}", rc);
+        let n = dbg.matches("BlockContext {").count();
+        let (bp, bv) = match rc.block() {
+            Some(b) => (b.base_path().join("/"), b.base_value().map(|v| v.render()).unwrap_or_else(|| "-".into())),
+            None => ("!".to_string(), "-".to_string()),
+        };
+        let s = format!(
+            "{{de={},pb={},ct={},rt={},bp={},bv={},n={}}}",
+            if rc.is_disable_escape() { 1 } else { 0 },
+            if rc.get_partial("@partial-block").is_some() { 1 } else { 0 },
+            opt(rc.get_current_template_name()),
+            opt(rc.get_root_template_name()),
+            bp,
+            bv,
+            n
+        );
+        out.write(&s)?;
+        Ok(())
+    }
+}
+
+struct VRet;
+impl HelperDef for VRet {
+    fn call_inner<'reg: 'rc, 'rc>(
+        &self,
+        h: &Helper<'rc>,
+        _: &'reg Handlebars<'reg>,
+        _: &'rc Context,
+        _: &mut RenderContext<'reg, 'rc>,
+    ) -> Result<ScopedJson<'rc>, RenderError> {
+        match h.param(0) {
+            Some(p) if !p.is_value_missing() => Ok(ScopedJson::Derived(p.value().clone())),
+            _ => Ok(ScopedJson::Missing),
+        }
+    }
+}
+
+struct SetCtx;
+impl handlebars::DecoratorDef for SetCtx {
+    fn call<'reg: 'rc, 'rc>(
+        &'reg self,
+        d: &Decorator<'rc>,
+        _: &'reg Handlebars<'reg>,
+        _: &'rc Context,
+        rc: &mut RenderContext<'reg, 'rc>,
+    ) -> Result<(), RenderError> {
+        let p = d.param(0).ok_or(RenderErrorReason::ParamNotFoundForIndex("setctx", 0))?;
+        rc.set_context(Context::wraps(p.value())?);
+        Ok(())
+    }
+}
+
+struct SetHelper;
+impl handlebars::DecoratorDef for SetHelper {
+    fn call<'reg: 'rc, 'rc>(
+        &'reg self,
+        d: &Decorator<'rc>,
+        _: &'reg Handlebars<'reg>,
+        _: &'rc Context,
+        rc: &mut RenderContext<'reg, 'rc>,
+    ) -> Result<(), RenderError> {
+        let n = d.param(0).and_then(|p| p.value().as_str().map(|s| s.to_owned()));
+        let t = d.param(1).and_then(|p| p.value().as_str().map(|s| s.to_owned()));
+        match (n, t) {
+            (Some(n), Some(tag)) => {
+                rc.register_local_helper(&n, Box::new(Mark { tag }));
+                Ok(())
+            }
+            _ => Err(RenderErrorReason::InvalidParamType("String").into()),
+        }
+    }
+}
+
+fn mk_registry(cfg: &Value) -> Handlebars<'static> {
+    let mut r = Handlebars::new();
+    match cfg.get("escape").and_then(|v| v.as_str()) {
+        Some("none") => r.register_escape_fn(handlebars::no_escape),
+        Some("mark") => r.register_escape_fn(|s: &str| format!("⟦{}⟧", s)),
+        _ => {}
+    }
+    if let Some(hs) = cfg.get("helpers").and_then(|v| v.as_array()) {
+        for h in hs {
+            let name = h["name"].as_str().unwrap();
+            match h["kind"].as_str().unwrap() {
+                "mark" => r.register_helper(name, Box::new(Mark { tag: h["tag"].as_str().unwrap_or("").to_string() })),
+                "probe" => r.register_helper(name, Box::new(Probe)),
+                "evalp" => r.register_helper(name, Box::new(EvalP)),
+                "rcstate" => r.register_helper(name, Box::new(RcState)),
+                "vret" => r.register_helper(name, Box::new(VRet)),
+                "macro" => {
+                    let sig_name = h["sig"]["name"].as_str().unwrap();
+                    if !macro_helpers::register(&mut r, name, sig_name) {
+                        panic!("unknown macro helper {}", sig_name);
+                    }
+                }
+                other => panic!("unknown helper kind {}", other),
+            }
+        }
+    }
+    if let Some(ds) = cfg.get("decorators").and_then(|v| v.as_array()) {
+        for d in ds {
+            let name = d["name"].as_str().unwrap();
+            match d["kind"].as_str().unwrap() {
+                "setctx" => r.register_decorator(name, Box::new(SetCtx)),
+                "sethelper" => r.register_decorator(name, Box::new(SetHelper)),
+                other => panic!("unknown decorator kind {}", other),
+            }
+        }
+    }
+    r.set_strict_mode(cfg.get("strict").and_then(|v| v.as_bool()).unwrap_or(false));
+    r.set_prevent_indent(cfg.get("prevent_indent").and_then(|v| v.as_bool()).unwrap_or(false));
+    r.set_dev_mode(cfg.get("dev").and_then(|v| v.as_bool()).unwrap_or(false));
+    r
+}
+
+// ---------------------------------------------------------------- writers
+
+struct FaultWriter {
+    calls: usize,
+    fail_at: Option<usize>,
+    buf: Vec<u8>,
+}
+
+impl Write for FaultWriter {
+    fn write(&mut self, b: &[u8]) -> std::io::Result<usize> {
+        if Some(self.calls) == self.fail_at {
+            self.calls += 1;
+            return Err(std::io::Error::new(std::io::ErrorKind::Other, "planted fault"));
+        }
+        self.calls += 1;
+        self.buf.extend_from_slice(b);
+        Ok(b.len())
+    }
+    fn flush(&mut self) -> std::io::Result<()> {
+        Ok(())
+    }
+}
+
+fn render_once(r: &Handlebars<'static>, op: &Value) -> Value {
+    let api = op.get("api").and_then(|v| v.as_str()).unwrap_or("render");
+    let data = decode_data(op.get("data").unwrap_or(&Value::Null));
+    let name = op.get("name").and_then(|v| v.as_str()).unwrap_or("");
+    let src = op.get("src").and_then(|v| v.as_str()).unwrap_or("");
+    let fail_at = op.get("fail_at").and_then(|v| v.as_u64()).map(|k| k as usize);
+    let fin = |res: Result<String, RenderError>| match res {
+        Ok(s) => json!({"r":"ok","out":s}),
+        Err(e) => rerr_json(&e, ""),
+    };
+    let mut w = FaultWriter { calls: 0, fail_at, buf: vec![] };
+    let finw = |res: Result<(), RenderError>, w: &FaultWriter| {
+        let written = String::from_utf8_lossy(&w.buf).to_string();
+        match res {
+            Ok(()) => json!({"r":"ok","out":written,"calls":w.calls}),
+            Err(e) => rerr_json(&e, &written),
+        }
+    };
+    match api {
+        "render" => fin(r.render(name, &data)),
+        "render_with_context" => fin(Context::wraps(&data).and_then(|c| r.render_with_context(name, &c))),
+        "render_to_write" => {
+            let res = r.render_to_write(name, &data, &mut w);
+            finw(res, &w)
+        }
+        "render_with_context_to_write" => {
+            let res = Context::wraps(&data).and_then(|c| r.render_with_context_to_write(name, &c, &mut w));
+            finw(res, &w)
+        }
+        "render_template" => fin(r.render_template(src, &data)),
+        "render_template_with_context" => fin(Context::wraps(&data).and_then(|c| r.render_template_with_context(src, &c))),
+        "render_template_to_write" => {
+            let res = r.render_template_to_write(src, &data, &mut w);
+            finw(res, &w)
+        }
+        "render_template_with_context_to_write" => {
+            let res = Context::wraps(&data).and_then(|c| r.render_template_with_context_to_write(src, &c, &mut w));
+            finw(res, &w)
+        }
+        other => json!({"r":"panic","site":format!("runner.unknown_api {}", other)}),
+    }
+}
+
+// ---------------------------------------------------------------- sessions
+
+struct Session {
+    regs: Vec<Handlebars<'static>>,
+    dir: std::path::PathBuf,
+}
+
+fn reg_result(res: Result<(), TemplateError>) -> Value {
+    match res {
+        Ok(()) => json!({"r":"ok"}),
+        Err(e) => terr_json(&e),
+    }
+}
+
+fn step_op(s: &mut Session, op: &Value) -> Value {
+    let kind = op["op"].as_str().unwrap_or("");
+    let i = op.get("reg").and_then(|v| v.as_u64()).unwrap_or(0) as usize;
+    let name = op.get("name").and_then(|v| v.as_str()).unwrap_or("");
+    let file = |s: &Session, op: &Value| s.dir.join(op["file"].as_str().unwrap_or("f"));
+    match kind {
+        "reg_string" => reg_result(s.regs[i].register_template_string(name, op["src"].as_str().unwrap_or(""))),
+        "reg_partial" => reg_result(s.regs[i].register_partial(name, op["src"].as_str().unwrap_or(""))),
+        "reg_template" => {
+            let src = op["src"].as_str().unwrap_or("");
+            let t = match op.get("tname").and_then(|v| v.as_str()) {
+                Some(n) => Template::compile_with_name(src, n.to_string()),
+                None => Template::compile(src),
+            };
+            match t {
+                Ok(t) => {
+                    s.regs[i].register_template(name, t);
+                    json!({"r":"ok"})
+                }
+                Err(e) => terr_json(&e),
+            }
+        }
+        "reg_file" => {
+            let p = file(s, op);
+            reg_result(s.regs[i].register_template_file(name, p))
+        }
+        "unregister" => {
+            s.regs[i].unregister_template(name);
+            json!({"r":"ok"})
+        }
+        "clear" => {
+            s.regs[i].clear_templates();
+            json!({"r":"ok"})
+        }
+        "set_dev" => {
+            s.regs[i].set_dev_mode(op["v"].as_bool().unwrap_or(false));
+            json!({"r":"ok"})
+        }
+        "set_prevent_indent" => {
+            s.regs[i].set_prevent_indent(op["v"].as_bool().unwrap_or(false));
+            json!({"r":"ok"})
+        }
+        "set_strict" => {
+            s.regs[i].set_strict_mode(op["v"].as_bool().unwrap_or(false));
+            json!({"r":"ok"})
+        }
+        "write_file" => {
+            std::fs::create_dir_all(&s.dir).unwrap();
+            std::fs::write(file(s, op), op["content"].as_str().unwrap_or("")).unwrap();
+            json!({"r":"ok"})
+        }
+        "delete_file" => {
+            let _ = std::fs::remove_file(file(s, op));
+            json!({"r":"ok"})
+        }
+        "clone" => {
+            let c = s.regs[i].clone();
+            s.regs.push(c);
+            json!({"r":"ok"})
+        }
+        "has" => json!({"r":"bool","v":s.regs[i].has_template(name)}),
+        "keys" => {
+            let mut k: Vec<String> = s.regs[i].get_templates().keys().cloned().collect();
+            k.sort();
+            json!({"r":"keys","v":k})
+        }
+        "render" => render_once(&s.regs[i], op),
+        "render_mt" => {
+            let seq = render_once(&s.regs[i], op);
+            let n = op.get("threads").and_then(|v| v.as_u64()).unwrap_or(4) as usize;
+            let reg = &s.regs[i];
+            let results: Vec<Value> = std::thread::scope(|sc| {
+                let hs: Vec<_> = (0..n).map(|_| sc.spawn(|| render_once(reg, op))).collect();
+                hs.into_iter().map(|h| h.join().unwrap_or(json!({"r":"thread-panic"}))).collect()
+            });
+            if results.iter().all(|x| *x == seq) {
+                seq
+            } else {
+                json!({"r":"mt_disagree","seq":seq,"threads":results})
+            }
+        }
+        other => json!({"r":"panic","site":format!("runner.unknown_op {}", other)}),
+    }
+}
+
+fn run_session(c: &Value, scratch: &std::path::Path, idx: usize) -> Value {
+    let regs: Vec<Handlebars<'static>> = c["regs"].as_array().map(|a| a.iter().map(mk_registry).collect()).unwrap_or_default();
+    let dir = scratch.join(format!("c{}", idx));
+    let mut s = Session { regs, dir: dir.clone() };
+    let mut outs = vec![];
+    if let Some(ops) = c["ops"].as_array() {
+        for op in ops {
+            let r = catch_unwind(AssertUnwindSafe(|| step_op(&mut s, op)));
+            outs.push(match r {
+                Ok(v) => v,
+                Err(p) => json!({"r":"panic","site":panic_msg(&p)}),
+            });
+        }
+    }
+    let _ = std::fs::remove_dir_all(&dir);
+    json!({"r":"session","results":outs})
+}
+
+fn panic_msg(p: &Box<dyn std::any::Any + Send>) -> String {
+    if let Some(s) = p.downcast_ref::<&str>() {
+        s.to_string()
+    } else if let Some(s) = p.downcast_ref::<String>() {
+        s.clone()
+    } else {
+        "panic".to_string()
+    }
+}
+
+fn run_case(c: &Value, scratch: &std::path::Path, idx: usize) -> Value {
+    match c["kind"].as_str().unwrap_or("") {
+        "compile" => {
+            let src = c["src"].as_str().unwrap_or("");
+            let pi = c.get("prevent_indent").and_then(|v| v.as_bool()).unwrap_or(false);
+            match c.get("name").and_then(|v| v.as_str()) {
+                Some(n) => {
+                    let mut r = Handlebars::new();
+                    r.set_prevent_indent(pi);
+                    match r.register_template_string(n, src) {
+                        Ok(()) => json!({"r":"ok","ast":dump_tmpl(r.get_template(n).unwrap())}),
+                        Err(e) => terr_json(&e),
+                    }
+                }
+                None => match Template::compile(src) {
+                    Ok(t) => json!({"r":"ok","ast":dump_tmpl(&t)}),
+                    Err(e) => terr_json(&e),
+                },
+            }
+        }
+        "pairs" => pairs::run(c["src"].as_str().unwrap_or(""), c.get("rule").and_then(|v| v.as_str()).unwrap_or("handlebars")),
+        "numfmt" => {
+            use handlebars::JsonRender;
+            let n = decode_data(&c["n"]);
+            let txt = c["text"].as_str().unwrap_or("");
+            let p = match serde_json::from_str::<Value>(txt) {
+                Ok(v) => encode_data(&v),
+                Err(_) => json!("ERR"),
+            };
+            json!({"r":"numfmt","s":n.render(),"p":p})
+        }
+        "session" => run_session(c, scratch, idx),
+        other => json!({"r":"panic","site":format!("runner.unknown_kind {}", other)}),
+    }
+}
+
+fn main() {
+    let args: Vec<String> = std::env::args().collect();
+    let mut from = 0usize;
+    let mut file: Option<String> = None;
+    let mut i = 1;
+    while i < args.len() {
+        if args[i] == "--from" {
+            from = args[i + 1].parse().unwrap();
+            i += 2;
+        } else {
+            file = Some(args[i].clone());
+            i += 1;
+        }
+    }
+    // quiet panics: the message is reported in the result line
+    std::panic::set_hook(Box::new(|_| {}));
+    let scratch = std::env::temp_dir().join(format!("hbsverif-{}", std::process::id()));
+    let reader: Box<dyn BufRead> = match file {
+        Some(f) => Box::new(std::io::BufReader::new(std::fs::File::open(f).unwrap())),
+        None => Box::new(std::io::BufReader::new(std::io::stdin())),
+    };
+    let stdout = std::io::stdout();
+    let mut out = stdout.lock();
+    for (idx, line) in reader.lines().enumerate() {
+        let line = line.unwrap();
+        if idx < from || line.trim().is_empty() {
+            continue;
+        }
+        let c: Value = match serde_json::from_str(&line) {
+            Ok(c) => c,
+            Err(_) => {
+                writeln!(out, "{{\"r\":\"badcase\"}}").unwrap();
+                continue;
+            }
+        };
+        let res = catch_unwind(AssertUnwindSafe(|| run_case(&c, &scratch, idx)));
+        let mut v = match res {
+            Ok(v) => v,
+            Err(p) => json!({"r":"panic","site":panic_msg(&p)}),
+        };
+        if let (Some(o), Some(id)) = (v.as_object_mut(), c.get("id")) {
+            o.insert("id".into(), id.clone());
+        }
+        writeln!(out, "{}", serde_json::to_string(&v).unwrap()).unwrap();
+        out.flush().unwrap();
+    }
+    let _ = std::fs::remove_dir_all(&scratch);
+}
